@@ -149,6 +149,20 @@ pub fn make_probes(m: &ZoneModel, rng: &mut Rng, max_points: usize, sparse: usiz
         walls.push(t + far);
         walls.push(t - far);
     }
+    // year boundaries (rule code selects among previous / current / next year)
+    if m.rule.is_some() {
+        for &y in years.iter().filter(|y| **y > -190_000 && **y < 190_000) {
+            let jan1 = crate::model::days_from_civil(y, 1, 1) * 86_400;
+            let last_t = m.trans.last().map(|t| t.0).unwrap_or(i64::MIN);
+            if jan1 - 90_000 <= last_t {
+                continue;
+            }
+            for d in [-86_401i64, -43_200, -3_601, -1, 0, 1, 3_600, 43_200, 86_400] {
+                instants.push(jan1 + d);
+                walls.push(jan1 + d);
+            }
+        }
+    }
     let near = instants.len() + walls.len();
     for _ in 0..sparse {
         let t = match rng.below(4) {
